@@ -16,6 +16,17 @@ for pid in sorted(P.PROPS):
         continue
     claim = c.get("claim", {})
     fams = ", ".join(f"{f['mode']}:{f['name']}" for f in c.get("families", []))
+    try:
+        thms = sorted(k.split(".")[-1] for k in json.load(open(os.path.join(ROOT, "statements.expected", pid + ".json"))))
+    except Exception:
+        thms = []
+    partial = [t for t in thms if t.endswith("_partial")]
+    default_text = (f"{len(thms)} Lean 4 theorems over a small-step model of the protocol, each for every number of actors and every schedule "
+                    f"(induction over the schedule, invariants / refinement; kernel-checked, axioms within propext, Classical.choice, Quot.sound): "
+                    + ", ".join(thms) + ". "
+                    + (f"`_partial` theorems ({', '.join(partial)}): the full statement is kept visible next to each in the file; where the same name without the suffix is also listed the full statement is proved for the repaired code and the partial one concerns the pinned variant, otherwise only the named part is proved. " if partial else "")
+                    + "The model's step function is the one that replays hook traces of the real code on every run (correspondence; families: " + fams
+                    + "); implementation-side oracles in the harness give concrete failing histories. A theorem covers all interleavings of the model, which no test of the suite can; what it says about the code is as strong as the replay tie (measured transition coverage in the evidence file).")
     checks.append({
         "property_id": pid,
         "quick_cmd": f"./check {pid} --tier quick",
@@ -25,10 +36,10 @@ for pid in sorted(P.PROPS):
         "engine": "lean-proof+trace-replay",
         "level_claimed": {
             "category": "proof",
-            "text": claim.get("text", "Lean 4 theorems over a small-step model of the protocol for every schedule; the model's step function replays hook traces of the real code on every run (families: " + fams + "); harness oracles give concrete failing histories"),
+            "text": claim.get("text", default_text),
             "design_ref": claim.get("design_ref", f"DESIGN.md §6 {pid}, §11"),
         },
-        "level_note": claim.get("note", "trusted: Lean kernel + propext/Classical.choice/Quot.sound; the model-code tie is checked by trace replay (measured transition coverage), not proved; SC interleavings only; lower layers by their specification; " + "; ".join(c.get("assumptions", []))[:900]),
+        "level_note": claim.get("note", "trusted: Lean kernel + propext/Classical.choice/Quot.sound; the model-code tie is checked by trace replay (measured transition coverage), not proved; SC interleavings only; lower layers by their specification; " + "; ".join(c.get("assumptions", [])) + " || modelled, not verified: " + "; ".join(c.get("trusted_base", []))),
         "technique": claim.get("technique", "Lean 4 invariant/refinement proof + trace-replay correspondence"),
     })
 claimed = {c["property_id"] for c in checks}
